@@ -6,6 +6,7 @@ import ast
 import re
 
 from csverif.astutil import assignments_to, body_walk, compare_parts, const_eval, dotted, fn_calls, is_const, kwarg, NotConst, param_defaults, params, src, statements
+from csverif.astutil import pmatch, find_match
 from csverif.cfg import ENTRY, EXIT
 from csverif.q import FuncView, dominating_conditions, guarded_by, origin, raise_class, specialise
 
@@ -71,15 +72,17 @@ def r1(ctx):
     kd = [(st, v) for st, v in assignments_to(f.node, key)]
     tile = [v for st, v in kd if isinstance(v, ast.BinOp) and isinstance(v.op, ast.Mult)]
     cut = [v for st, v in kd if isinstance(v, ast.Subscript)]
-    t_ok = len(tile) == 1 and src(tile[0]).replace(" ", "") in (f"{key}*(size//len({key})+1)", f"{key}*((size//len({key}))+1)")
-    c_ok = len(cut) == 1 and src(cut[0]) == f"{key}[:size]"
+    # SZ = the local holding len(data)
+    SZ = next((dotted(st.targets[0]) for st in statements(f.node) if isinstance(st, ast.Assign) and pmatch("len($d)", st.value, {"d": data}) is not None), "size")
+    t_ok = len(tile) == 1 and pmatch("$k * ($s // len($k) + 1)", tile[0], {"k": key, "s": SZ}) is not None
+    c_ok = len(cut) == 1 and pmatch("$k[:$s]", cut[0], {"k": key, "s": SZ}) is not None
     order_ok = False
     if t_ok and c_ok:
         tn = cfg.node([st for st, v in kd if v is tile[0]][0])
         cn = cfg.node([st for st, v in kd if v is cut[0]][0])
         order_ok = not cfg.reaches(cn, tn) and all(cfg.dominates(cn, cfg.node(r)) for r in rets if dotted(r.value) != data)
     ctx.ob("R1", "ABS", f, "key tiled then cut to size", t_ok and c_ok and order_ok, f"tiling key * (size // len(key) + 1)={t_ok}; cut key[:size]={c_ok}; cut after tiling and before the XOR={order_ok}")
-    g_ok = bool(tile) and guarded_by(ctx, f, tile[0], lambda t: True if src(t) == f"len({key}) < size" else None)
+    g_ok = bool(tile) and guarded_by(ctx, f, tile[0], lambda t: True if pmatch("len($k) < $s", t, {"k": key, "s": SZ}) is not None else None)
     ctx.ob("R1", "ABS", f, "tiling guard", bool(g_ok), "key is tiled only when shorter than the data")
 
 
@@ -156,18 +159,20 @@ def r4(ctx):
     f = ctx.repo.func("utils.random_stager_uri")
     cfg = ctx.cfg(f)
     rets = cfg.return_stmts()
-    sel = [v for st, v in assignments_to(f.node, "is_stager")]
+    SEL = next((dotted(st.targets[0]) for st in statements(f.node) if isinstance(st, ast.Assign) and isinstance(st.value, ast.IfExp) and "is_stager" in src(st.value)), "is_stager")
+    sel = [v for st, v in assignments_to(f.node, SEL)]
     sel_ok = len(sel) == 1 and isinstance(sel[0], ast.IfExp) and src(sel[0]) == "is_stager_x64 if x64 else is_stager_x86"
     ctx.ob("R4", "AGREE", f, "is_stager = is_stager_x64 if x64 else is_stager_x86", sel_ok, f"classifier selection: {[src(s) for s in sel]}")
     for r in rets:
         name = dotted(r.value)
-        ok = name is not None and guarded_by(ctx, f, r, lambda t: True if src(t) == f"is_stager({name})" else None)
+        ok = name is not None and guarded_by(ctx, f, r, lambda t: True if src(t) == f"{SEL}({name})" else None)
         # and uri is not rebound between the test and the return
-        ctx.ob("R4", "DOM", f, "return " + src(r.value), bool(ok), "a URI is returned only on the true edge of its own classifier" if ok else "URI returned without passing is_stager(uri)", r)
-    ch = [v for st, v in assignments_to(f.node, "chars")]
+        ctx.ob("R4", "DOM", f, "return <uri>", bool(ok), "a URI is returned only on the true edge of its own classifier" if ok else "URI returned without passing is_stager(uri)", r)
+    ch = [st.value for st in statements(f.node) if isinstance(st, ast.Assign) and "string." in src(st.value)]
     ok = len(ch) == 1 and src(ch[0]) in ("string.ascii_letters + string.digits", "string.digits + string.ascii_letters")
     ctx.ob("R4", "TABLE", f, "alphabet", ok, "alphabet is ASCII letters + digits (within the x64 class [A-Za-z0-9])")
-    uri = [v for st, v in assignments_to(f.node, "uri")]
+    UV = dotted(rets[0].value) if rets else "uri"
+    uri = [v for st, v in assignments_to(f.node, UV)]
     ok = len(uri) == 1 and src(uri[0]).startswith("'/' + ''.join(") and "range(length)" in src(uri[0])
     ctx.ob("R4", "AGREE", f, "uri = '/' + length chars", ok, "candidate URIs are '/' followed by `length` alphabet characters")
     pre = [(src(s.test), raise_class(s.body[0])) for s in f.node.body if isinstance(s, ast.If) and s.body and isinstance(s.body[0], ast.Raise)]
@@ -188,7 +193,10 @@ def r5(ctx):
         return
     sink = cfg.node(fv.stmt_of(calls[0]))
     spec = specialise(cfg, {f"{resp}.request": True})
-    sets = [s for s in statements(f.node) if isinstance(s, ast.Assign) and dotted(s.targets[0]) == "is_stager" and is_const(s.value, True)]
+    gate0 = [s2 for s2 in statements(f.node) if isinstance(s2, ast.If) and isinstance(s2.test, ast.UnaryOp) and isinstance(s2.test.op, ast.Not) and isinstance(s2.test.operand, ast.Name)
+             and s2.body and isinstance(s2.body[0], ast.Return)]
+    FLG = gate0[0].test.operand.id if gate0 else "is_stager"
+    sets = [s for s in statements(f.node) if isinstance(s, ast.Assign) and dotted(s.targets[0]) == FLG and is_const(s.value, True)]
     good = []
     for s in sets:
         conds = [(t, n) for t, pol, n in dominating_conditions(ctx, f, s) if pol]
@@ -200,15 +208,15 @@ def r5(ctx):
         if st_ok:
             good.append(cfg.node(s))
     # flag gate: `if not is_stager: return None`
-    gate = [s for s in statements(f.node) if isinstance(s, ast.If) and src(s.test) == "not is_stager" and s.body and isinstance(s.body[0], ast.Return)]
+    gate = [s for s in statements(f.node) if isinstance(s, ast.If) and src(s.test) == f"not {FLG}" and s.body and isinstance(s.body[0], ast.Return)]
     # with the gate, on every path to the sink is_stager is truthy: require every path to pass a positive assignment,
     # and the gate to dominate the sink in the specialised graph
     passes = spec.all_paths_pass(ENTRY, sink, good) if good else False
     gated = bool(gate) and spec.dominates(cfg.edge_node(gate[0], "false"), sink)
-    inits = [s for s in statements(f.node) if isinstance(s, ast.Assign) and dotted(s.targets[0]) == "is_stager" and is_const(s.value, False)]
+    inits = [s for s in statements(f.node) if isinstance(s, ast.Assign) and dotted(s.targets[0]) == FLG and is_const(s.value, False)]
     # flag propagation: the flag is only ever assigned the constants False (reset) and True (under a stager test), the
     # reset dominates every True-assignment, so "flag truthy at the gate" implies a positive stager test on this call
-    all_sets = [s2 for s2 in statements(f.node) if isinstance(s2, (ast.Assign, ast.AugAssign)) and any(dotted(t) == "is_stager" for t in (s2.targets if isinstance(s2, ast.Assign) else [s2.target]))]
+    all_sets = [s2 for s2 in statements(f.node) if isinstance(s2, (ast.Assign, ast.AugAssign)) and any(dotted(t) == FLG for t in (s2.targets if isinstance(s2, ast.Assign) else [s2.target]))]
     only_consts = len(all_sets) == len(inits) + len(good) and len(good) == len(sets)
     reset_first = bool(inits) and all(cfg.dominates(cfg.node(inits[0]), gnode) for gnode in good)
     flag_ok = only_consts and reset_first
@@ -230,16 +238,18 @@ def r6(ctx):
     def plus_off(x):
         return x.left if isinstance(x, ast.BinOp) and isinstance(x.op, ast.Add) and dotted(x.right) == "offset" else None
 
+    CV = next((dotted(s2.target) for s2 in statements(e.node) if isinstance(s2, ast.For)), "c")
+
     def is_hi(x):
         x = plus_off(x)
         if not (isinstance(x, ast.BinOp) and isinstance(x.op, ast.RShift) and _c(x.right) == 4):
             return False
         l = x.left
-        return dotted(l) == "c" or (isinstance(l, ast.BinOp) and isinstance(l.op, ast.BitAnd) and dotted(l.left) == "c" and _c(l.right) == 0xF0)
+        return dotted(l) == CV or (isinstance(l, ast.BinOp) and isinstance(l.op, ast.BitAnd) and dotted(l.left) == CV and _c(l.right) == 0xF0)
 
     def is_lo(x):
         x = plus_off(x)
-        return isinstance(x, ast.BinOp) and isinstance(x.op, ast.BitAnd) and dotted(x.left) == "c" and _c(x.right) == 0x0F
+        return isinstance(x, ast.BinOp) and isinstance(x.op, ast.BitAnd) and dotted(x.left) == CV and _c(x.right) == 0x0F
 
     hi = [k for k, v in en.items() if is_hi(v)]
     lo = [k for k, v in en.items() if is_lo(v)]
@@ -251,12 +261,14 @@ def r6(ctx):
     def minus_off(x, idx_src):
         return isinstance(x, ast.BinOp) and isinstance(x.op, ast.Sub) and src(x.left) == idx_src and dotted(x.right) == "offset"
 
-    hi_d = [k for k, v in dn.items() if isinstance(v, ast.BinOp) and isinstance(v.op, ast.LShift) and _c(v.right) == 4 and minus_off(v.left, "data[i]")]
-    hi_d += [k for k, v in dn.items() if isinstance(v, ast.BinOp) and isinstance(v.op, ast.Mult) and _c(v.right) == 16 and minus_off(v.left, "data[i]")]
-    lo_d = [k for k, v in dn.items() if minus_off(v, "data[i + 1]")]
+    IV = next((dotted(s2.target) for s2 in statements(d.node) if isinstance(s2, ast.For)), "i")
+    DP = params(d.node)[0]
+    hi_d = [k for k, v in dn.items() if isinstance(v, ast.BinOp) and isinstance(v.op, ast.LShift) and _c(v.right) == 4 and minus_off(v.left, f"{DP}[{IV}]")]
+    hi_d += [k for k, v in dn.items() if isinstance(v, ast.BinOp) and isinstance(v.op, ast.Mult) and _c(v.right) == 16 and minus_off(v.left, f"{DP}[{IV}]")]
+    lo_d = [k for k, v in dn.items() if minus_off(v, f"{DP}[{IV} + 1]")]
     app = [src(c.args[0]) for c in fn_calls(d.node) if isinstance(c.func, ast.Attribute) and c.func.attr == "append"]
     rng = [src(s.iter) for s in statements(d.node) if isinstance(s, ast.For)]
-    ok = len(hi_d) == 1 and len(lo_d) == 1 and app in ([f"{hi_d[0]} + {lo_d[0]}"], [f"{hi_d[0]} | {lo_d[0]}"], [f"{lo_d[0]} + {hi_d[0]}"]) and rng == ["range(0, len(data), 2)"]
+    ok = len(hi_d) == 1 and len(lo_d) == 1 and app in ([f"{hi_d[0]} + {lo_d[0]}"], [f"{hi_d[0]} | {lo_d[0]}"], [f"{lo_d[0]} + {hi_d[0]}"]) and rng == [f"range(0, len({DP}), 2)"]
     ctx.ob("R6", "AGREE", d, "decoder nibble order", ok, f"even index is the high nibble (<< 4), odd index the low one, each minus offset: {da}; combined as {app}; stride {rng}")
     de, dd = _c(param_defaults(e.node).get("offset")), _c(param_defaults(d.node).get("offset"))
     ctx.ob("R6", "AGREE", e, "default offset", de == dd == 0x41, f"encoder default offset {de}, decoder {dd}")
